@@ -51,6 +51,10 @@ def gen_session(rng, cfg, length, wild):
     pool = interesting_addresses(rng, cfg)
     ops = ["reset %d" % cfg]
     in_flash = False
+    # rough estimate of the page flashes that are outstanding (the monitor computes the exact number
+    # from the effects): structured sessions call end_flash only for those (handler contract) and
+    # do not restart flashing while one is outstanding (both are preconditions of the layout clause)
+    pos, flashed, ended = None, 0, 0
     while len(ops) < length:
         r = rng.random()
         if wild and r < 0.12:
@@ -61,20 +65,34 @@ def gen_session(rng, cfg, length, wild):
         elif wild and r < 0.14:
             ops.append("ctrl -")
         elif r < 0.34:
-            a = rng.choice(pool)
+            if not wild:
+                while ended < flashed:          # let the outstanding page flashes finish first
+                    ops += ["endflash", "output", "output"]
+                    ended += 1
+            a = rng.choice(pool) if rng.random() < 0.6 else rng.randrange(*rng.choice(c["regions"]))
             ops.append("ctrl " + hexs([3] + addr(a)))
             in_flash = True
+            pos = a
             if rng.random() < 0.5:
                 ops.append("output")
         elif r < 0.62:
             n = rng.choice([1, 2, 3, 7, 8, 9, 15, 16, 17, 20, 20, 20])
             ops.append("data " + hexs([rng.randrange(256) for _ in range(n)]))
+            if pos is not None and in_flash:
+                flashed += (pos + n) // c["page"] - pos // c["page"]
+                pos += n
         elif r < 0.68:
             ops.append("ctrl 05")
             ops.append("output")
+            if pos is not None and in_flash and pos % c["page"]:
+                flashed += 1
         elif r < 0.76:
-            ops.append("endflash")
-            if rng.random() < 0.7:
+            if wild or ended < flashed or rng.random() < 0.05:
+                ops.append("endflash")
+                ended += 1
+                if rng.random() < 0.7:
+                    ops.append("output")
+            else:
                 ops.append("output")
         elif r < 0.84:
             a, b = rng.choice(pool), rng.choice(pool)
@@ -110,6 +128,44 @@ def gen_session(rng, cfg, length, wild):
     return ops[:length + 4]
 
 
+def gen_flash_session(rng, cfg, length):
+    """a client that flashes: Start Flash at a white-listed address, data writes of every size, the
+    handler's end_flash (only for pages that were flashed) and the progress notifications, Flush,
+    restarts after the outstanding pages are done; refused writes (no free buffer) are part of it"""
+    c = CONFIGS[cfg]
+    page = c["page"]
+    ops = ["reset %d" % cfg]
+    pos, flashed, ended = None, 0, 0
+    while len(ops) < length:
+        r = rng.random()
+        if pos is None or r < 0.05:
+            while ended < flashed:
+                ops += ["endflash", "output", "output"]
+                ended += 1
+            s, e = rng.choice(c["regions"])
+            pos = rng.choice([s, s + 1, e - 1, e - page, rng.randrange(s, e), rng.randrange(s, e)])
+            ops.append("ctrl " + hexs([3] + addr(pos)))
+            if rng.random() < 0.7:
+                ops.append("output")
+        elif r < 0.70:
+            n = rng.choice([1, 2, 5, 13, 16, 19, 20, 20, 20, 20])
+            ops.append("data " + hexs([rng.randrange(256) for _ in range(n)]))
+            flashed += (pos + n) // page - pos // page
+            pos += n
+        elif r < 0.88:
+            if ended < flashed:
+                ops.append("endflash")
+                ended += 1
+            ops.append("output")
+        elif r < 0.94:
+            ops += ["ctrl 05", "output"]
+            if pos % page:
+                flashed += 1
+        else:
+            ops.append("output")
+    return ops
+
+
 def inside(cfg, a, n):
     return any(s <= a and a + n <= e for s, e in CONFIGS[cfg]["regions"])
 
@@ -134,6 +190,131 @@ def proj(op, line):
         if v[:2] not in ("01", "03", "05", "08"):
             pdu = "cp " + v[:2]
     return " ; ".join((res, effs, pdu))
+
+
+def mock_mem(a):
+    return (a % 2 ** 64) % 251
+
+
+def digest(bs):
+    h = 0
+    for b in bs:
+        h = (h * 31 + b) % 2 ** 32
+    return h
+
+
+def crc_add(old, bs):
+    return (old + sum(bs)) % 2 ** 32
+
+
+def le32(x):
+    return [(x >> (8 * i)) & 0xff for i in range(4)]
+
+
+def layout_monitor(cfg, ops, outs):
+    """independent oracle for the third clause: a flash procedure is (start address s0, stream of the
+    data bytes taken since Start Flash); every start_flash call must be the page image of the bytes
+    that wait at their addresses (rest of the page = device memory), in order, nothing dropped or
+    duplicated; the checksum in the Start Flash / Flush response is crc(s0) chained over the stream.
+    Knows the protocol (which control point writes start / end flash mode), not the buffers. The number
+    of bytes taken from a write answered 0x83 is inferred from the number of pages it flashed.
+    Preconditions of the clause: the handler calls end_flash only for an outstanding start_flash
+    (otherwise the session is not judged any further); Start Flash while a page flash is outstanding or
+    a progress notification is queued is reported under its own key (known finding)."""
+    page = CONFIGS[cfg]["page"]
+    hits = []
+    active = False          # flash mode
+    cur, pend, crc = 0, [], 0
+    owed, prog = 0, False   # outstanding start_flash calls, progress notification queued
+    restart_hazard = False
+    last_cp = None          # opcode of the last accepted/attempted control point procedure
+    stats = dict(pages=0, judged=True)
+    for k, (op, out) in enumerate(zip(ops, outs)):
+        if k == 0:
+            continue
+        p = split_line(out)
+        if not p:
+            break
+        res, effs, pdu = p
+        flashes = [tuple(int(x) for x in e.split()[1:]) for e in ([] if effs == "-" else effs.split(",")) if e.startswith("startFlash")]
+        w = op.split()
+        expect = []
+
+        def emit(cur, pend):
+            lo = cur % page
+            a = cur - lo
+            img = [mock_mem(a + i) for i in range(lo)] + pend + [mock_mem(cur + len(pend) + i) for i in range(page - lo - len(pend))]
+            return (a, page, digest(img))
+        if w[0] == "ctrl":
+            v = parse_hex(w[1])
+            if v:
+                o = v[0]
+                last_cp = o
+                if o == 3:
+                    if res == "ok":
+                        restart_hazard = owed > 0 or prog
+                        active, cur, pend = True, int.from_bytes(bytes(v[1:9]), "little"), []
+                        crc = sum(v[1:9])
+                    else:
+                        active = False
+                elif o == 5:
+                    if res == "ok" and active:
+                        expect.append(emit(cur, pend))
+                        cur, pend = cur + len(pend), []
+                    else:
+                        active = False
+                elif o in (6, 7):
+                    if res != "ok":
+                        active = False
+                elif o <= 8:
+                    active = False
+        elif w[0] == "data":
+            v = parse_hex(w[1])
+            if active:
+                if res == "ok":
+                    take = len(v)
+                elif res == "err 83":
+                    # taken up to the m-th page boundary, m = number of pages flashed by this write
+                    m = len(flashes)
+                    take = 0 if m == 0 else (page - (cur + len(pend)) % page) + (m - 1) * page
+                    if take >= len(v) and len(v):
+                        hits.append((k, "C39:data-write-refused-after-taking-everything", "op %d `%s`: answered 0x83 although %d pages were flashed" % (k, op, m)))
+                        take = len(v)
+                else:
+                    hits.append((k, "C39:data-write-unexpected-answer", "op %d `%s`: answered `%s` in flash mode" % (k, op, res)))
+                    take = 0
+                for b in v[:take]:
+                    pend.append(b)
+                    crc = crc_add(crc, [b])
+                    if (cur + len(pend)) % page == 0:
+                        expect.append(emit(cur, pend))
+                        cur, pend = cur + len(pend), []
+            elif res != "err 80":
+                hits.append((k, "C39:data-write-accepted-outside-flash-mode", "op %d `%s`: answered `%s` although no flash procedure is active" % (k, op, res)))
+        elif w[0] == "endflash":
+            if owed == 0:
+                stats["judged"] = False      # handler contract broken by the test driver
+                break
+            owed -= 1
+            prog = True
+        elif w[0] == "output":
+            if pdu == "progress":
+                prog = False
+            elif pdu.startswith("cp ") and active:
+                val = parse_hex(pdu[3:])
+                if val and val[0] in (3, 5) and last_cp == val[0]:
+                    got = val[2:6] if val[0] == 3 else val[1:5]
+                    if got != le32(crc):
+                        key = "C39:reported-checksum-mismatch" + (":restart-while-page-flash-outstanding" if restart_hazard else "")
+                        hits.append((k, key, "op %d: response of opcode %d reports checksum %s, the chain over the start address and the %s"
+                                     " is %s" % (k, val[0], hexs(got), "received bytes", hexs(le32(crc)))))
+        owed += len(flashes)
+        stats["pages"] += len(flashes)
+        if flashes != expect:
+            key = "C39:flashed-page-mismatch" + (":restart-while-page-flash-outstanding" if restart_hazard else "")
+            hits.append((k, key, "op %d `%s`: start_flash calls (address, size, digest) %s, expected from the client's stream %s" % (k, op, flashes, expect)))
+            break
+    return hits, stats
 
 
 def monitor(cfg, ops, outs, crash):
@@ -167,6 +348,7 @@ def monitor(cfg, ops, outs, crash):
                             where = "unrelated-address"
                         key = "C39:%s-outside-white-list:%s" % (f[0], where)
                     hits.append((k, key, "op %d `%s`: %s touches [%#x, %#x) which is not inside any white-listed region" % (k, op, f[0], a, a + n)))
+    hits += layout_monitor(cfg, ops, outs)[0]
     if crash:
         k = len(outs)
         op = ops[k] if k < len(ops) else "?"
@@ -194,7 +376,10 @@ def run_c39(ctx, replay_path=None):
     sessions = [ops for _, ops in corpus]
     n = 5000 if ctx.thorough else 500
     for i in range(n):
-        sessions.append(gen_session(ctx.rng, i % 3, ctx.rng.randrange(6, 50 if i % 3 != 2 else 130), wild=(i % 4 == 3)))
+        if i % 5 == 4:
+            sessions.append(gen_flash_session(ctx.rng, i % 3, ctx.rng.randrange(10, 60 if i % 3 != 2 else 400)))
+        else:
+            sessions.append(gen_session(ctx.rng, i % 3, ctx.rng.randrange(6, 50 if i % 3 != 2 else 130), wild=(i % 4 == 3)))
     impl, model, dis = ctx.run_pair(sessions, proj)
     for d in dis:
         ops = sessions[d["session"]]
@@ -222,6 +407,9 @@ def run_c39(ctx, replay_path=None):
                     nontrivial = nontrivial or f[0] == "startFlash"
                 nontrivial = nontrivial or p[0] in ("err 07", "err 83")
         res.count("sessions_nontrivial", nontrivial)
+        lstats = layout_monitor(cfg, ops, outs)[1]
+        res.count("layout:pages_checked", lstats["pages"])
+        res.count("layout:sessions_judged_to_the_end", lstats["judged"])
         for k, key, what in monitor(cfg, ops, outs, r["crash"]):
             failing.setdefault(key, []).append((ops[:k + 1], what))
     for key, lst in sorted(failing.items()):
@@ -241,17 +429,25 @@ def run_c39(ctx, replay_path=None):
 
 PROPS = {
     "C39": dict(
-        theorems=["BluetoeModel.Bootloader.flash_effects_inside_regions",
+        imports=["BluetoeModel.Bootloader.PropsLayout"],
+        theorems=["BluetoeModel.Bootloader.effects_inside_regions",
+                  "BluetoeModel.Bootloader.flash_effects_inside_regions",
                   "BluetoeModel.Bootloader.control_point_reads_le_size",
-                  "BluetoeModel.Bootloader.effects_inside_regions_partial"],
-        witnesses=["BluetoeModel.Bootloader.effects_inside_regions_witness"],
+                  "BluetoeModel.Bootloader.flash_layout",
+                  "BluetoeModel.Bootloader.spec_stream",
+                  "BluetoeModel.Bootloader.data_taken",
+                  "BluetoeModel.Bootloader.reported_checksum_start_flash",
+                  "BluetoeModel.Bootloader.reported_checksum_flush"],
+        witnesses=["BluetoeModel.Bootloader.flash_layout_unrestricted_witness"],
         run=run_c39,
         level="proof-partial",
-        technique="Lean 4 invariant proof over all histories, page sizes and region lists of a model of bootloader::details::controller/flash_buffer + differential correspondence with the real service (effect trace) + white-list monitor and ASan",
-        level_text="Proved for every page size, region list and history (with fixes boot-01, boot-02): every start_flash / read_mem / public_checksum32 call touches only memory entirely inside one white-listed region (flash_effects_inside_regions) and read_address never leaves the written control point value (control_point_reads_le_size). The Read procedure's public_read_mem calls are proved inside the white list for histories without a data write in flash mode while a Read procedure is current (effects_inside_regions_partial); with such a write they are not (effects_inside_regions_witness, known finding C39:publicRead-outside-white-list:read-procedure-while-flashing). The clause 'data is flashed at the client's addresses with the announced checksum chain' is covered by the correspondence (digest of every flashed page, crc in the notifications) but not by a theorem.",
-        level_note="Trusted: Lean kernel + propext/Quot.sound/Classical.choice; model = code as far as the differential check samples it (3 configurations, one connection, MTU 23, 64 bit uintptr_t, mock handler whose public_read_mem never fails); handler end_flash may be called at any time.",
+        technique="Lean 4 invariant / simulation proofs over all histories, page sizes and region lists of a model of bootloader::details::controller/flash_buffer (white-list invariant; refinement of the two page buffers to a byte-wise flash specification) + differential correspondence with the real service (effect trace, page digests, checksums) + white-list monitor, layout monitor and ASan",
+        level_text="Proved for every page size, region list and history (code with fixes boot-01, boot-02, boot-03): every start_flash / read_mem / public_checksum32 / public_read_mem call touches only memory entirely inside one white-listed region (effects_inside_regions, full strength) and read_address never leaves the written control point value (control_point_reads_le_size). Third clause: for every legal history the start_flash calls of every operation are exactly those of the flash specification - the received bytes at start address + offset, page by page, in order, the rest of each page as read back (flash_layout); in the specification nothing is dropped or duplicated and the checksum is crc(start address) chained over exactly the bytes taken (spec_stream); a data write answered with success is taken completely, one answered 0x83 up to a page end (data_taken); the checksums in the Start Flash and Flush responses are that chain (reported_checksum_start_flash/_flush). Legal = the handler calls end_flash only for an outstanding start_flash, and an accepted Start Flash arrives only when no page flash is outstanding and no progress notification is queued. Without the second precondition the clause is false (flash_layout_unrestricted_witness, known finding C39:flashed-page-mismatch:restart-while-page-flash-outstanding).",
+        level_note="Trusted: Lean kernel + propext/Quot.sound/Classical.choice; model = code as far as the differential check samples it (3 configurations, one connection, MTU 23, 64 bit uintptr_t, mock handler whose public_read_mem never fails and whose memory does not change while flashing); the checksum enters the proofs only through the chaining law checksum32(p2, n2, checksum32(p1, n1, c)) = checksum32(p1 ++ p2, c) (crcAdd_append); not covered by a theorem: the payload of the progress notification, the checksum of the Read response.",
         design_ref="§5 C39",
         assumptions=["memory_region bounds are uintptr_t values, page size > 0 (Cfg.WF, guaranteed by the C++ types)",
-                     "user handler performs exactly the accesses it is asked for (mock records them)"],
+                     "user handler performs exactly the accesses it is asked for (mock records them)",
+                     "layout clause: the handler calls end_flash once per start_flash call, after it (documented contract)",
+                     "layout clause: the client does not restart flashing (Start Flash) while a page flash is outstanding or a progress notification is queued"],
     ),
 }
